@@ -6,6 +6,7 @@ simulates a *new* frame), `advanceLockstepFrame` is `advance_lockstep_frame`, `l
 `SyncLayer::load_frame` (the only producer of LoadGameState requests).
 -/
 import GgrsModel.Model.Inventory
+import GgrsModel.Proofs.Demo
 import GgrsModel.Model.Sites.SyncLayer
 import GgrsModel.Model.Sites.P2pSession
 import GgrsModel.Model.P2P
@@ -316,3 +317,19 @@ theorem C04_lockstep_drops (x y : P2P × TLState) (h0 : ∃ gh, LkInvD x.1 gh x.
   exact ⟨gh', h', hcase⟩
 
 end Ggrs
+
+namespace Ggrs
+
+/-- **Non-vacuity of the lockstep world.** A freshly built lockstep session (prediction window 0)
+satisfies the lockstep invariant, and the world `LkStar` contains the run it is meant for: the user
+submits an input and calls `advance_frame`, which STALLS (empty request list, frame unchanged)
+because the remote input is missing; the remote input arrives; the next call simulates frame 0 on
+the full row of real inputs, both Confirmed. -/
+theorem C04_lockstep_nonvacuous :
+    (∃ gh, LkInv demoLk gh ⟨0, fun _ => []⟩) ∧ (∃ t', LkStar (demoLk, ⟨0, fun _ => []⟩) (demoLk2, t')) ∧
+    (getOk (lkTick demoLk 5)).2 = [] ∧ demoLk1.sync.currentFrame = 0 ∧
+    (getOk (lkTick demoLk1r 5)).2 = [.advance [(5, .confirmed), (9, .confirmed)]] ∧ demoLk2.sync.currentFrame = 1 :=
+  ⟨⟨_, LkInv_init demoLk (fun _ => []) 2 rfl rfl rfl⟩, demo_lockstep_run _, demo_lk_facts⟩
+
+end Ggrs
+
